@@ -1,5 +1,6 @@
 import Rare.Base.Proto
 import Rare.Model.C07
+import Rare.Drv.C07Acc
 /-!
 Line-protocol driver for C07 (see `harness/corr/c07.go` for the op list and dump formats).
 
@@ -217,6 +218,7 @@ def runSplit (d s : Bytes) (n : Nat) : String :=
   "ok " ++ commaJoin outs.reverse
 
 def handle : List String → String
+  | "acc" :: rest => (C07Acc.handle ("acc" :: rest)).getD "bad-args"
   | ["agg", "counter", h] =>
     match decHexList h with
     | some hist => "ok " ++ bar ((prefixes Counter.sample {} hist).map dumpCounter)
